@@ -96,6 +96,15 @@ def random_table(rng, nstates=None, nevents=None, nrows=None, allow_guard_mix=Tr
     guards = list({ident(rng, "Guard") for _ in range(rng.randint(1, 3))})
     actions.sort()
     guards.sort()
+    if nstates is None and nevents is None and rng.random() < 0.12:
+        # sibling names that differ from an existing one by a single inserted letter (Set / Sent, Run / Rutn): distinct model elements whose
+        # tag names are near one another
+        for pool in (states, actions, guards, events):
+            if rng.random() < 0.6:
+                b = rng.choice(pool)
+                sib = b[:-1] + rng.choice("tn") + b[-1:]
+                if sib not in pool:
+                    pool.append(sib)
     rows = []
     n = nrows or rng.randint(1, 8)
     for _ in range(n):
